@@ -101,21 +101,42 @@ Qed.
 Definition nq (c : cfg) (p : pdu) : bool :=
   (fst p =? 3) && match classify21 (c_phy c) (3, snd p) with None => true | Some _ => false end && negb (is_terminate (3, snd p)).
 Definition pdu_ok22 (c : cfg) (p : pdu) : bool := (fst p =? 3) && negb (N.of_nat (length (snd p)) =? 0) && nq c p.
+(* a well formed LL_CONNECTION_UPDATE_IND (any parameters, any instant) *)
+Definition upd_ok22 (p : pdu) : bool := (fst p =? 3) && (N.of_nat (length (snd p)) =? 12) && (byte (snd p) 0 =? 0).
 Definition op_ok22 (c : cfg) (o : lop) : bool :=
   match o with
   | Run | AdvTimeout | Adv _ _ | Timeout | TxAvail _ | St | Key _ => true
   | Ev _ pdus => negb (existsb (fun p => 27 <? N.of_nat (length (snd p))) pdus)
-                 && match pdus with [] => true | _ => negb (c_enc c) && forallb (pdu_ok22 c) pdus end
+                 && match pdus with
+                    | [] => true
+                    | _ => negb (c_enc c) && (forallb (pdu_ok22 c) pdus
+                                              || (c_cb c && match pdus with [u] => upd_ok22 u | _ => false end))
+                    end
   | _ => false
   end.
 Definition cfg_ok22 (c : cfg) : bool := c_sca c <=? 500.
 Definition is_crash22 (r : lout) : bool := match r with OCrash => true | _ => false end.
 (* nothing is left in the receive queue (a control PDU stays there while no transmit buffer is available) *)
 Definition calm22 (s : lstate_t) : bool := match rxq (bf s) with [] => true | _ => false end.
+Definition lost22 (s : lstate_t) : bool :=
+  (conn_timeout (tm s) <=? tsle (cs s)) || (lstate_eqb (st s) Connecting && (5 * interval (tm s) <=? tsle (cs s))).
+Definition is_some22 (d : option (list N)) : bool := match d with Some _ => true | None => false end.
+(* an update that is delivered or waiting either stays waiting or - in a connection event - is applied at its instant
+   (the link layer is in state connection_changed afterwards).  Outside: a delivered update that is refused (instant
+   passed: the link is dropped), an update whose parameters are found invalid at its instant (the link is dropped), an
+   instant that falls on a MISSED event (timeout()).  A missed event that ends the link by the supervision timeout is inside. *)
+Definition still22 (s : lstate_t) (o : lop) (s' : lstate_t) : bool :=
+  match o with
+  | Ev _ pdus => if is_some22 (deferred s) || match updates_of pdus with [] => false | _ => true end
+                 then is_some22 (deferred s') || (is_some22 (deferred s) && lstate_eqb (st s') ConnChanged) else true
+  | Timeout => if is_some22 (deferred s) then is_some22 (deferred s') || lost22 s else true
+  | _ => true
+  end.
 Fixpoint env22 (c : cfg) (s : lstate_t) (ops : list lop) : bool :=
   match ops with
   | [] => true
-  | o :: r => op_ok22 c o && negb (is_crash22 (snd (lstep c s o))) && calm22 (fst (lstep c s o)) && env22 c (fst (lstep c s o)) r
+  | o :: r => op_ok22 c o && negb (is_crash22 (snd (lstep c s o))) && calm22 (fst (lstep c s o)) && still22 s o (fst (lstep c s o))
+              && env22 c (fst (lstep c s o)) r
   end.
 
 (* ========================================================================================== invariants *)
@@ -124,27 +145,34 @@ Definition timing_inv (t : timing) (a : N) : Prop :=
   /\ 100000 <= conn_timeout t /\ conn_timeout t <= 32000000 /\ interval t * ((latency t + 1) * 2) < conn_timeout t /\ a <= 1000.
 
 Definition Glob (s : lstate_t) : Prop :=
-  length (ChanMapModel.tbl (chan s)) = 37%nat /\ enc_prog (sc s) = false /\ ap_pending (ac s) = false /\ ring s = [] /\ deferred s = None.
+  length (ChanMapModel.tbl (chan s)) = 37%nat /\ enc_prog (sc s) = false /\ ap_pending (ac s) = false /\ ring s = [] /\ (in_connection s = true \/ deferred s = None).
 
 Definition base22 (s : lstate_t) : Prop :=
   rxq (bf s) = [] /\ stopped (bf s) = false /\ proc_timeout s = 0
   /\ cpr_pending (pr s) = false /\ phy_pending (pr s) = false /\ ver_pending (pr s) = false
   /\ timing_inv (tm s) (sca s).
 
-Definition T22 (s : lstate_t) (p : mon22) : Prop :=
+(* the monitor's list of outstanding updates = the update the link layer has deferred to its instant *)
+Definition pend22 (s : lstate_t) : list (N * N * N * N * N) :=
+  match deferred s with Some b => [(byte b 1, rd16 b 2, rd16 b 4, rd16 b 6, rd16 b 8)] | None => [] end.
+
+Definition T22 (cb : bool) (s : lstate_t) (p : mon22) : Prop :=
   match p_phase p with
   | PIdle => in_connection s = false
   | PConnecting =>
-      st s = Connecting /\ base22 s /\ tw_size (tm s) <> 0 /\
+      st s = Connecting /\ base22 s /\ tw_size (tm s) <> 0 /\ deferred s = None /\
       exists k, tsle (cs s) = k * interval (tm s) /\
         p = mk22 PConnecting false (interval (tm s)) (latency (tm s)) (conn_timeout (tm s)) (sca s) (tw_off (tm s)) (tw_size (tm s)) (tsle (cs s)) k []
   | PConnected =>
       st s = Connected /\ base22 s /\ tw_size (tm s) = 0 /\
-      exists k, p = mk22 PConnected false (interval (tm s)) (latency (tm s)) (conn_timeout (tm s)) (sca s) 0 0 (tsle (cs s)) k []
-  | PBlind => False
+      exists k, p = mk22 PConnected false (interval (tm s)) (latency (tm s)) (conn_timeout (tm s)) (sca s) 0 0 (tsle (cs s)) k (pend22 s)
+                /\ (deferred s <> None -> cb = true) /\ (forall x, deferred s = Some x -> byte x 0 = 0)
+  | PBlind =>
+      st s = ConnChanged /\ base22 s /\ tw_size (tm s) <> 0 /\ deferred s = None /\
+      p = mk22 PBlind false (interval (tm s)) (latency (tm s)) (conn_timeout (tm s)) (sca s) (tw_off (tm s)) (tw_size (tm s)) 0 0 []
   end.
 
-Definition Sim22 (s : lstate_t) (p : mon22) : Prop := Glob s /\ T22 s p.
+Definition Sim22 (c : cfg) (s : lstate_t) (p : mon22) : Prop := Glob s /\ T22 (c_cb c) s p.
 
 Lemma tpcp_idle c s :
   cpr_pending (pr s) = false -> phy_pending (pr s) = false -> ver_pending (pr s) = false -> ap_pending (ac s) = false ->
@@ -242,23 +270,92 @@ Proof.
   - change (rxq (bf s2)) with rest. cbn [length] in L. lia.
 Qed.
 
+Definition live22 (s : lstate_t) : Prop := st s = Connecting \/ st s = Connected \/ st s = ConnChanged.
+Lemma in_conn_of3 s : live22 s -> in_connection s = true.
+Proof. unfold in_connection. intros [-> | [-> | ->]]; reflexivity. Qed.
+Lemma prologue_form3 c s : live22 s ->
+  exists rr, end_event_prologue c s = set_ring (upd_tm (set_st (set_pending_event s false) Connected) (fun t => set_tw_size t 0)) rr
+             /\ (st s <> Connecting -> rr = ring s).
+Proof.
+  intros [H|[H|H]].
+  - destruct (LLProofsC27Sim.prologue_form c s (or_introl H)) as (rr & E & _). exists rr. split; [exact E|congruence].
+  - destruct (LLProofsC27Sim.prologue_form c s (or_intror H)) as (rr & E & F). exists rr. split; [exact E|intros _; exact (F H)].
+  - exists (ring s). split; [|reflexivity]. unfold end_event_prologue. cbn [st set_pending_event]. rewrite H. cbn iota. change (st (set_pending_event s false)) with (st s). rewrite H. cbn [lstate_eqb]. destruct s; reflexivity.
+Qed.
+
+Lemma fd_deferred c s : deferred (fst (force_disconnect c s)) = None.
+Proof. unfold force_disconnect. destruct (reset_encryption c s) as [s1 i1]. destruct (st s1); reflexivity. Qed.
+
+(* handle_pending_ll_control() + setup_next_connection_event(): either the deferred procedure is applied / dropped here (the
+   instant is reached: afterwards nothing is deferred), or nothing but the next event is scheduled *)
+Lemma pts22 c s1 s8 it8 : pending_then_setup c s1 = Some (s8, it8) ->
+  (deferred s1 <> None /\ deferred s8 = None) \/ setup_next_connection_event s1 = Some (s8, it8).
+Proof.
+  unfold pending_then_setup, handle_pending_ll_control. intros H.
+  destruct (deferred s1) as [b|] eqn:D.
+  2:{ right. cbn [obind] in H. destruct (setup_next_connection_event s1) as [[x y]|]; cbn [obind app] in H; [exact H|discriminate]. }
+  destruct (def_instant s1 =? evc (cs s1)).
+  2:{ right. cbn [obind] in H. destruct (setup_next_connection_event s1) as [[x y]|]; cbn [obind app] in H; [exact H|discriminate]. }
+  left. split; [discriminate|].
+  set (s0 := upd_cs (set_deferred s1 None) _) in H.
+  assert (D0 : deferred s0 = None) by reflexivity.
+  assert (SN : forall x y z, setup_next_connection_event x = Some (y, z) -> deferred y = deferred x)
+    by (intros x y z E; apply setup_next_frame in E; destruct E as [-> _]; reflexivity).
+  destruct (byte b 0 =? GenLL.LL_CHANNEL_MAP_REQ).
+  { destruct (ChanMapModel.reset_impl _ _ _) as [ch r0]. cbn [obind] in H.
+    destruct (setup_next_connection_event (set_chan s0 ch)) as [[x y]|] eqn:E; cbn [obind] in H; [|discriminate].
+    inversion H; subst. rewrite (SN _ _ _ E). reflexivity. }
+  destruct (byte b 0 =? GenLL.LL_CONNECTION_UPDATE_IND).
+  { destruct (parse_update b) as [tt ok]. destruct ok as [[|]|]; cbn [obind] in H; [| |discriminate].
+    - match type of H with context [setup_next_connection_event ?X] => destruct (setup_next_connection_event X) as [[x y]|] eqn:E end; cbn [obind] in H; [|discriminate].
+      inversion H; subst. rewrite (SN _ _ _ E). unfold push_event. destruct (c_cb c); [destruct (_ <? _)|]; reflexivity.
+    - match type of H with context [force_disconnect c ?X] => pose proof (fd_deferred c X) as FD; destruct (force_disconnect c X) as [x y] end.
+      inversion H; subst. exact FD. }
+  cbn [obind] in H.
+  match type of H with context [setup_next_connection_event ?X] => destruct (setup_next_connection_event X) as [[x y]|] eqn:E end; cbn [obind] in H; [|discriminate].
+  inversion H; subst. rewrite (SN _ _ _ E). unfold push_event. destruct (c_cb c); [destruct (_ <? _)|]; reflexivity.
+Qed.
+
+(* ... and if afterwards the link layer is in state connection_changed, a connection update was applied here *)
+Lemma pts_apply c s1 b s8 it8 :
+  deferred s1 = Some b -> byte b 0 = 0 -> st s1 = Connected ->
+  pending_then_setup c s1 = Some (s8, it8) -> st s8 = ConnChanged ->
+  exists t, parse_update b = (t, Some true) /\
+    let sa := set_st (set_tm (set_proc_timeout (upd_cs (set_deferred s1 None) (fun x => if disarmable c then set_last_lat x 1 else x)) 0) t) ConnChanged in
+    setup_next_connection_event (push_event c sa (EvChanged (details_of sa))) = Some (s8, it8).
+Proof.
+  intros D B0 S1 H S8. unfold pending_then_setup, handle_pending_ll_control in H. rewrite D in H.
+  destruct (def_instant s1 =? evc (cs s1)).
+  2:{ exfalso. cbn [obind] in H. destruct (setup_next_connection_event s1) as [[x y]|] eqn:E; cbn [obind app] in H; [|discriminate].
+      inversion H; subst. apply setup_next_frame in E. destruct E as [-> _]. cbn [st set_pending_event] in S8. congruence. }
+  rewrite B0 in H. change (0 =? GenLL.LL_CHANNEL_MAP_REQ) with false in H. change (0 =? GenLL.LL_CONNECTION_UPDATE_IND) with true in H. cbn iota in H.
+  destruct (parse_update b) as [t ok]. destruct ok as [[|]|]; cbn [obind] in H; [| |discriminate].
+  - exists t. split; [reflexivity|]. cbn zeta.
+    match type of H with context [setup_next_connection_event ?X] => destruct (setup_next_connection_event X) as [[x y]|] eqn:E end; cbn [obind app] in H; [|discriminate].
+    inversion H; subst. reflexivity.
+  - exfalso. match type of H with context [force_disconnect c ?X] => pose proof (LLProofsC27Sim.fd_st27 c X) as FD; destruct (force_disconnect c X) as [x y] end.
+    inversion H; subst. cbn [fst] in FD. congruence.
+Qed.
+
 Lemma tail22 c s3 e s8 it8 :
-  tw_size (tm s3) = 0 -> timing_inv (tm s3) (sca s3) -> proc_timeout s3 = 0 -> enc_prog (sc s3) = false -> deferred s3 = None ->
+  tw_size (tm s3) = 0 -> timing_inv (tm s3) (sca s3) -> proc_timeout s3 = 0 -> enc_prog (sc s3) = false ->
   end_event_continue c s3 e = Some (s8, it8) ->
+  (deferred s3 <> None /\ deferred s8 = None) \/
   exists k kk ch ws we,
     it8 = [ICe ch ws we (interval (tm s3))] /\ s8 = set_pending_event (set_cs s3 kk) true
     /\ 1 <= k /\ k <= latency (tm s3) + 1 /\ tsle kk = k * interval (tm s3) /\ ws + we = 2 * tsle kk
     /\ covers (sca s3) ws we (tsle kk) (tsle kk) = true.
 Proof.
-  intros TW (I1 & I2 & I3 & I4 & I5 & I6 & I7 & I8 & I9) P3 EP D3 EB.
+  intros TW (I1 & I2 & I3 & I4 & I5 & I6 & I7 & I8 & I9) P3 EP EB.
   unfold end_event_continue, procedure_timed_out in EB. rewrite P3 in EB. cbn [N.eqb negb andb] in EB.
   unfold transmit_pending_security_pdus in EB. rewrite EP, andb_false_r in EB. cbn [andb] in EB.
   match type of EB with context [plan_next_connection_event c s3 ?X] => set (ev' := X) in *; destruct (plan_next_connection_event c s3 ev') as [s7|] eqn:E7 end; cbn [obind] in EB; [|discriminate].
   destruct (anchor_after_event c s3 ev' s7 I1) as (k & K1 & K2 & K3 & _); [clear - I1 I3; nia|exact E7|].
   apply plan_next_frame in E7. destruct E7 as [kk E7]. subst s7. set (s7 := set_cs s3 kk) in *.
-  unfold pending_then_setup, handle_pending_ll_control in EB.
-  assert (D7 : deferred s7 = None) by exact D3. rewrite D7 in EB. cbn [obind] in EB.
-  destruct (setup_next_connection_event s7) as [[s8' it8']|] eqn:E8; cbn [obind] in EB; [|discriminate].
+  destruct (pending_then_setup c s7) as [[s8' it8']|] eqn:EPS; cbn [obind] in EB; [|discriminate].
+  destruct (pts22 c s7 s8' it8' EPS) as [[Dn D8]|E8].
+  { left. cbn [app] in EB. inversion EB; subst s8 it8. split; [exact Dn|exact D8]. }
+  right.
   assert (TW7 : tw_size (tm s7) = 0) by exact TW.
   assert (KT : tsle (cs s7) = k * interval (tm s3)) by exact K3.
   pose proof (setup_next_sym s7 s8' it8' E8 TW7) as (ch & ws & we & Eit & Emid).
@@ -290,45 +387,151 @@ Proof. induction l as [|x t IH]; [reflexivity|]. cbn [forallb]. intros H. apply 
 Lemma unsent_le s : (length (unsent s) <= length (txq (bf s)))%nat.
 Proof. unfold unsent, unsent_b. destruct (fl (bf s)); try lia. destruct (txq (bf s)); simpl; lia. Qed.
 
+Lemma parse_update_ok b t : parse_update b = (t, Some true) ->
+  check_timing t = Some true /\ tw_off t <= interval t
+  /\ tw_off t = rd16 b 2 * 1250 /\ tw_size t = byte b 1 * 1250 /\ interval t = rd16 b 4 * 1250 /\ latency t = rd16 b 6
+  /\ timeout_value t = rd16 b 8 /\ conn_timeout t = rd16 b 8 * 10000.
+Proof.
+  unfold parse_update. cbn zeta. intros H. injection H as Et Eo. destruct (_ <=? _) eqn:E in Eo; [|discriminate].
+  subst t. cbn [tw_off tw_size interval latency timeout_value conn_timeout] in *. change GenLL.us_per_digits with 1250 in *.
+  repeat split; try exact Eo. apply N.leb_le in E. exact E.
+Qed.
+
+(* the event at the instant of a waiting connection update: the next event is scheduled k OLD intervals after the anchor,
+   1 <= k <= latency + 1, with the NEW interval handed to the radio and the window covering the update's transmit window *)
+Lemma tail22_apply c s3 e s8 it8 b :
+  tw_size (tm s3) = 0 -> timing_inv (tm s3) (sca s3) -> proc_timeout s3 = 0 -> enc_prog (sc s3) = false ->
+  deferred s3 = Some b -> byte b 0 = 0 -> st s3 = Connected -> ring s3 = [] -> c_cb c = true ->
+  end_event_continue c s3 e = Some (s8, it8) -> st s8 = ConnChanged ->
+  exists t k kk ch ws we,
+    parse_update b = (t, Some true) /\ it8 = [ICe ch ws we (interval t)]
+    /\ 1 <= k /\ k <= latency (tm s3) + 1 /\ tsle kk = k * interval (tm s3)
+    /\ covers (sca s3) ws we (tsle kk + tw_off t) (tsle kk + (tw_off t + tw_size t)) = true
+    /\ (let sa := set_st (set_tm (set_proc_timeout (upd_cs (set_deferred (set_cs s3 kk) None) (fun x => if disarmable c then set_last_lat x 1 else x)) 0) t) ConnChanged in
+        s8 = set_pending_event (set_ring sa [EvChanged (details_of sa)]) true).
+Proof.
+  intros TW (I1 & I2 & I3 & I4 & I5 & I6 & I7 & I8 & I9) P3 EP D3 B0 S3 R3 CBt EB S8.
+  unfold end_event_continue, procedure_timed_out in EB. rewrite P3 in EB. cbn [N.eqb negb andb] in EB.
+  unfold transmit_pending_security_pdus in EB. rewrite EP, andb_false_r in EB. cbn [andb] in EB.
+  match type of EB with context [plan_next_connection_event c s3 ?X] => set (ev' := X) in *; destruct (plan_next_connection_event c s3 ev') as [s7|] eqn:E7 end; cbn [obind] in EB; [|discriminate].
+  destruct (anchor_after_event c s3 ev' s7 I1) as (k & K1 & K2 & K3 & _); [clear - I1 I3; nia|exact E7|].
+  apply plan_next_frame in E7. destruct E7 as [kk E7]. subst s7. set (s7 := set_cs s3 kk) in *.
+  destruct (pending_then_setup c s7) as [[s8' it8']|] eqn:EPS; cbn [obind] in EB; [|discriminate].
+  cbn [app] in EB. inversion EB; subst s8' it8'; clear EB.
+  destruct (pts_apply c s7 b s8 it8 D3 B0 S3 EPS S8) as (t & PU & E8). cbn zeta in E8.
+  destruct (parse_update_ok b t PU) as (CT & OI & _).
+  pose proof (check_timing_true t CT) as (C1 & (C2 & C2') & (C3 & C3') & C4 & (C5 & C5') & C6).
+  unfold push_event in E8. rewrite CBt in E8.
+  match type of E8 with context [ring ?X] => change (ring X) with (ring s3) in E8 end. rewrite R3 in E8.
+  change (N.of_nat (length (@nil cb_event)) <? GenLL.max_events) with true in E8. cbn iota in E8. cbn [app] in E8.
+  match type of E8 with setup_next_connection_event ?X = _ => set (sx := X) in * end.
+  assert (KT : tsle (cs sx) = k * interval (tm s3)) by (subst sx; destruct (disarmable c); exact K3).
+  destruct (window_covers sx s8 it8) as (ch & ws & we & Eit & Ecov); [| |exact E8|].
+  { rewrite KT. change (tw_off (tm sx)) with (tw_off t). change (tw_size (tm sx)) with (tw_size t). unfold time_bound.
+    assert (X : k * interval (tm s3) <= (latency (tm s3) + 1) * interval (tm s3)) by (apply N.mul_le_mono_r; exact K2).
+    clear - X I8 I7 OI C2' C3'. nia. }
+  { exact I9. }
+  change (tw_size (tm sx)) with (tw_size t) in Ecov. change (tw_off (tm sx)) with (tw_off t) in Ecov. change (interval (tm sx)) with (interval t) in Eit.
+  replace (tw_size t =? 0) with false in Ecov by (symmetry; apply N.eqb_neq; clear - C3; lia).
+  apply setup_next_frame in E8. destruct E8 as [E8 _].
+  assert (K3' : tsle kk = k * interval (tm s3)) by exact K3.
+  exists t, k, kk, ch, ws, we.
+  split; [exact PU|]. split; [exact Eit|]. split; [exact K1|]. split; [exact K2|]. split; [exact K3'|].
+  split; [change (sca sx) with (sca s3) in Ecov; rewrite KT in Ecov; rewrite K3'; exact Ecov|].
+  cbn zeta. rewrite E8. reflexivity.
+Qed.
+
+
+Lemma epilogue_deferred c s9 it : deferred (fst (end_event_epilogue c s9 it)) = deferred s9.
+Proof.
+  unfold end_event_epilogue.
+  assert (X : deferred (transmit_pending_control_pdus c s9) = deferred s9)
+    by (destruct (ck_keep _ _ _ (ctlk_tpcp c s9)) as (_ & _ & K & _); exact K).
+  destruct (st s9); cbn [flush_events fst]; try reflexivity; exact X.
+Qed.
+
 Lemma neutral_event c s e pdus s' r :
-  st s = Connecting \/ st s = Connected -> base22 s -> Glob s ->
+  live22 s -> base22 s -> Glob s ->
   existsb (fun p => 27 <? N.of_nat (length (snd p))) pdus = false ->
-  normalise21 pdus = [] \/ (c_enc c = false /\ forallb (nq c) (normalise21 pdus) = true) ->
+  (updates_of pdus = [] /\ (normalise21 pdus = [] \/ (c_enc c = false /\ forallb (nq c) (normalise21 pdus) = true)))
+  \/ (c_enc c = false /\ exists b, pdus = [(3, b)] /\ length b = 12%nat /\ byte b 0 = 0) ->
   lstep c s (Ev e pdus) = (s', r) -> r <> OCrash -> rxq (bf s') = [] ->
+  (deferred s <> None \/ updates_of pdus <> [] -> deferred s' <> None) ->
   exists k ch ws we pre rr,
     r = OItems (pre ++ ICe ch ws we (interval (tm s)) :: map ICb rr)
     /\ forallb q22 pre = true /\ forallb nochg rr = true
     /\ 1 <= k /\ k <= latency (tm s) + 1 /\ tsle (cs s') = k * interval (tm s) /\ ws + we = 2 * tsle (cs s')
     /\ covers (sca s) ws we (tsle (cs s')) (tsle (cs s')) = true
-    /\ st s' = Connected /\ tm s' = set_tw_size (tm s) 0 /\ sca s' = sca s /\ base22 s' /\ Glob s'.
+    /\ st s' = Connected /\ tm s' = set_tw_size (tm s) 0 /\ sca s' = sca s /\ base22 s' /\ Glob s'
+    /\ pend22 s' = pend22 s ++ updates_of pdus
+    /\ (forall x, deferred s' = Some x -> deferred s = Some x \/ byte x 0 = 0).
 Proof.
-  intros Hst (B1 & B3 & B4 & B5 & B6 & B7 & BT) (G1 & G2 & G3 & G4 & G5) HL HP H Hr HX.
+  intros Hst (B1 & B3 & B4 & B5 & B6 & B7 & BT) (G1 & G2 & G3 & G4 & G5) HL HP H Hr HX HK.
   pose proof BT as (I1 & I2 & I3 & I4 & I5 & I6 & I7 & I8 & I9).
-  cbn [lstep] in H. rewrite (LLProofsC27Sim.in_conn_of s Hst) in H. rewrite HL in H.
+  cbn [lstep] in H. rewrite (in_conn_of3 s Hst) in H. rewrite HL in H.
   destruct (radio_event_spec (S (length pdus + length (txq (bf s)))) s pdus) as (b' & R1 & R2 & R3 & R4 & R5 & R6 & R7).
   { apply le_S. apply Nat.add_le_mono_l. apply unsent_le. } { apply le_n_S. apply Nat.le_0_l. }
   destruct (radio_event _ s pdus) as [s1 it1]. cbn [fst snd] in R1, R7. subst s1 it1.
   set (s1 := set_bf s b') in *. rewrite B1 in R4. cbn [app] in R4.
-  assert (Hst1 : st s1 = Connecting \/ st s1 = Connected) by exact Hst.
+  assert (Hst1 : live22 s1) by exact Hst.
   destruct (do_end_event c s1 e) as [[s2 it2]|] eqn:E2; [|inversion H; subst; congruence].
   inversion H; subst s2 r; clear H.
-  destruct (LLProofsC27Sim.prologue_form c s1 Hst1) as (rr & Esp & _).
+  destruct (prologue_form3 c s1 Hst1) as (rr & Esp & _).
   assert (RR : forallb nochg rr = true).
   { assert (X : rr = ring (end_event_prologue c s1)) by (rewrite Esp; reflexivity). rewrite X. apply prologue_ring. exact G4. }
   unfold do_end_event in E2. rewrite Esp in E2.
   set (sp := set_ring (upd_tm (set_st (set_pending_event s1 false) Connected) (fun t => set_tw_size t 0)) rr) in *.
-  destruct (end_event_body c sp e) as [[s9 it9]|] eqn:EB; cbn [obind] in E2; [|discriminate].
+  assert (DS' : deferred s' = deferred (fst (end_event_epilogue c (fst (match end_event_body c sp e with Some x => x | None => (sp, []) end)) (snd (match end_event_body c sp e with Some x => x | None => (sp, []) end))))).
+  { destruct (end_event_body c sp e) as [[s9 it9]|]; cbn [obind] in E2; [|discriminate]. cbn [fst snd]. destruct (end_event_epilogue c s9 it9). inversion E2. reflexivity. }
+  rewrite epilogue_deferred in DS'.
+  destruct (end_event_body c sp e) as [[s9 it9]|] eqn:EB; cbn [obind] in E2; [|discriminate]. cbn [fst] in DS'.
   unfold end_event_body in EB. change (st sp) with Connected in EB. cbn [lstate_eqb andb] in EB.
-  assert (HRD : exists s3 it3, handle_received_data (S (length (rxq (bf sp)))) c sp = (s3, it3, GoAhead)
-            /\ quiet_items it3 /\ fr22 sp s3 /\ ctlq 0 sp s3 /\ deferred s3 = None).
-  { destruct HP as [HP|[Enc HP]].
-    - rewrite hrd_empty by (change (rxq (bf sp)) with (rxq b'); rewrite R4; exact HP).
-      exists sp, []. split; [reflexivity|]. split; [reflexivity|]. split; [apply fr22_refl|]. split; [apply ctlq_refl|exact G5].
-    - assert (Q : forallb (nq c) (rxq (bf sp)) = true) by (change (rxq (bf sp)) with (rxq b'); rewrite R4; exact HP).
-      pose proof (hrd_neutral c Enc (S (length (rxq (bf sp)))) sp Q G5) as HN. cbn zeta in HN.
+  assert (RXP : rxq (bf sp) = normalise21 pdus) by exact R4.
+  assert (UPD : forall b, length b = 12%nat -> byte b 0 = 0 -> updates_of [(3, b)] = [(byte b 1, rd16 b 2, rd16 b 4, rd16 b 6, rd16 b 8)]).
+  { intros b L B0. unfold updates_of. cbn [flat_map fst snd]. rewrite L, B0. reflexivity. }
+  assert (HRD : exists s3 it3 res, handle_received_data (S (length (rxq (bf sp)))) c sp = (s3, it3, res)
+            /\ (res = DoDisconnect -> updates_of pdus <> [])
+            /\ (res = GoAhead -> quiet_items it3 /\ fr22 sp s3 /\ ctlq 0 sp s3
+                /\ ((deferred s3 = deferred s /\ (rxq (bf s3) = [] -> updates_of pdus = []))
+                    \/ (deferred s = None /\ exists b, pdus = [(3, b)] /\ length b = 12%nat /\ byte b 0 = 0 /\ deferred s3 = Some b)))).
+  { destruct (deferred s) as [d|] eqn:DS.
+    { exists sp, [], GoAhead. assert (DP : deferred sp = Some d) by exact DS.
+      split; [cbn [handle_received_data]; rewrite DP; reflexivity|]. split; [discriminate|]. intros _.
+      split; [reflexivity|]. split; [apply fr22_refl|]. split; [apply ctlq_refl|].
+      left. split; [exact DP|]. intros Z. rewrite RXP in Z.
+      destruct HP as [[HU _]|(_ & b & -> & L & B0)]; [exact HU|]. exfalso. unfold normalise21 in Z. cbn [map filter fst snd] in Z. destruct b; discriminate. }
+    assert (DP : deferred sp = None) by exact DS.
+    destruct HP as [[HU [HP|[Enc HP]]]|(Enc & b & EP & L & B0)].
+    - rewrite hrd_empty by (rewrite RXP; exact HP).
+      exists sp, [], GoAhead. split; [reflexivity|]. split; [discriminate|]. intros _. split; [reflexivity|]. split; [apply fr22_refl|]. split; [apply ctlq_refl|]. left. split; [exact DP|intros _; exact HU].
+    - assert (Q : forallb (nq c) (rxq (bf sp)) = true) by (rewrite RXP; exact HP).
+      pose proof (hrd_neutral c Enc (S (length (rxq (bf sp)))) sp Q DP) as HN. cbn zeta in HN.
       destruct (handle_received_data _ c sp) as [[s3 it3] r3]. cbn [fst snd] in HN. destruct HN as (-> & Q3 & F3 & C3 & D3 & _).
-      exists s3, it3. auto. }
-  destruct HRD as (s3 & it3 & EH & Q3 & F3 & C3 & D3). rewrite EH in EB.
+      exists s3, it3, GoAhead. split; [reflexivity|]. split; [discriminate|]. intros _. split; [exact Q3|]. split; [exact F3|]. split; [exact C3|]. left. split; [exact D3|intros _; exact HU].
+    - subst pdus.
+      assert (NP : normalise21 [(3, b)] = [(3, b)]) by (unfold normalise21; cbn [map filter fst snd]; destruct b; [discriminate L|reflexivity]).
+      rewrite NP in RXP. rewrite RXP. cbn [length handle_received_data]. rewrite DP, RXP.
+      change GenLL.ll_control_pdu_code with 3. cbn [N.eqb Pos.eqb].
+      destruct (tx_buffer_available sp) eqn:TA.
+      2:{ exists sp, [], GoAhead. split; [reflexivity|]. split; [discriminate|]. intros _. split; [reflexivity|]. split; [apply fr22_refl|]. split; [apply ctlq_refl|].
+          left. split; [exact DP|]. intros Z. rewrite RXP in Z. discriminate Z. }
+      assert (CL : classify21 (c_phy c) (3, b) = Some (PUpdate (byte b 1) (rd16 b 2) (rd16 b 4) (rd16 b 6) (rd16 b 8), rd16 b 10)).
+      { unfold classify21. cbn [N.eqb Pos.eqb negb]. rewrite L. cbn [N.of_nat Pos.of_succ_nat Pos.succ]. rewrite B0. reflexivity. }
+      pose proof (accept_full c sp b _ _ CL) as AF. cbn zeta in AF. pose proof (hlc_fr22 c sp b Enc) as HF.
+      destruct (handle_ll_control c sp b) as [[sa ita] ra]. cbn [fst snd] in AF, HF.
+      destruct AF as (-> & SC & [(_ & -> & _)|(_ & -> & DA & _)]).
+      + eexists _, _, DoDisconnect. split; [reflexivity|]. split; [intros _; rewrite (UPD b L B0); discriminate|discriminate].
+      + cbn [handle_received_data]. change (deferred (upd_bf sa (fun b0 => set_rxq b0 []))) with (deferred sa). rewrite DA. cbn [app].
+        exists (upd_bf sa (fun b0 => set_rxq b0 [])), [], GoAhead. split; [reflexivity|]. split; [discriminate|]. intros _. split; [reflexivity|].
+        split; [eapply fr22_trans; [exact HF|]; unfold fr22; cbn; repeat split; auto|].
+        split; [change 0%nat with (0 + 0)%nat; eapply ctlq_trans; [apply same_conn_ctlq; exact SC|apply pop_ctlq]|].
+        right. split; [reflexivity|]. exists b. split; [reflexivity|]. split; [exact L|]. split; [exact B0|exact DA]. }
+  destruct HRD as (s3 & it3 & res & EH & HDD & HGA). rewrite EH in EB.
+  destruct res.
+  2:{ exfalso. destruct (force_disconnect c s3) as [x y] eqn:FD. inversion EB; subst s9 it9.
+      pose proof (fd_deferred c s3) as FD'. rewrite FD in FD'. cbn [fst] in FD'. rewrite FD' in DS'.
+      apply (HK (or_intror (HDD eq_refl))). exact DS'. }
+  destruct (HGA eq_refl) as (Q3 & F3 & C3 & HD3). clear HGA HDD.
   destruct F3 as (F1 & F2 & F4 & F5 & F6 & F7 & F8).
   destruct C3 as [C1 C2 C4 C5 C6 C7 C8 (ltx & C9 & _) (evs & C10 & C11)].
   rewrite (send_control_noop s3) in EB by (rewrite C1; reflexivity).
@@ -336,10 +539,12 @@ Proof.
   inversion EB; subst s9 it9; clear EB.
   assert (T3 : tm s3 = set_tw_size (tm s) 0) by (rewrite C4; reflexivity).
   assert (A3 : sca s3 = sca s) by (rewrite F1; reflexivity).
-  destruct (tail22 c s3 e s8 it8) as (k & kk & ch & ws & we & Eit & E8 & K1 & K2 & KT & Emid & Ecov); try exact EC.
+  destruct (tail22 c s3 e s8 it8) as [[Dn D8]|(k & kk & ch & ws & we & Eit & E8 & K1 & K2 & KT & Emid & Ecov)]; try exact EC.
   { rewrite T3. reflexivity. }
   { rewrite T3, A3. unfold timing_inv. cbn [latency interval tw_size tw_off conn_timeout set_tw_size]. repeat split; try assumption; clear; lia. }
-  { apply F7. exact B4. } { apply F8. exact G2. } { exact D3. }
+  { apply F7. exact B4. } { apply F8. exact G2. }
+  { exfalso. rewrite D8 in DS'. refine (HK _ DS').
+    destruct HD3 as [[HD3 _]|(_ & b & -> & L & B0 & _)]; [left; rewrite <- HD3; exact Dn|right; rewrite (UPD b L B0); discriminate]. }
   rewrite T3 in Eit, K2, KT. rewrite A3 in Ecov. cbn [latency interval set_tw_size] in Eit, K2, KT.
   subst s8 it8. unfold end_event_epilogue in E2. change (st (set_pending_event (set_cs s3 kk) true)) with (st s3) in E2. rewrite C1 in E2.
   change (st sp) with Connected in E2. cbn iota in E2.
@@ -358,16 +563,95 @@ Proof.
   split; [exact C1|]. split; [exact T3|]. split; [exact A3|].
   assert (TI : timing_inv (tm s3) (sca s3)).
   { rewrite T3, A3. unfold timing_inv. cbn [latency interval tw_size tw_off conn_timeout set_tw_size]. repeat split; try assumption; clear; lia. }
-  split.
+  split; [|split; [|split]].
   - unfold base22. split; [exact HX|]. split; [change (stopped (bf s3) = false); rewrite C7; change (stopped b' = false); rewrite R2; exact B3|].
     split; [exact (F7 B4)|]. split; [exact P5|]. split; [exact P6|]. split; [exact P7|exact TI].
   - unfold Glob. split; [change (length (ChanMapModel.tbl (chan s3)) = 37%nat); rewrite C5; exact G1|].
-    split; [exact (F8 G2)|]. split; [exact P8|]. split; [reflexivity|exact D3].
+    split; [exact (F8 G2)|]. split; [exact P8|]. split; [reflexivity|]. left. change (in_connection s3 = true). unfold in_connection. rewrite C1. reflexivity.
+  - change (pend22 s3 = pend22 s ++ updates_of pdus). unfold pend22.
+    destruct HD3 as [[HD3 HU]|(DN & b & -> & L & B0 & HD3)].
+    + rewrite HD3, (HU HX), app_nil_r. reflexivity.
+    + rewrite HD3, DN, (UPD b L B0). reflexivity.
+  - change (forall x, deferred s3 = Some x -> deferred s = Some x \/ byte x 0 = 0). intros x Hx.
+    destruct HD3 as [[HD3 _]|(_ & b & _ & _ & B0 & HD3)]; [left; rewrite <- HD3; exact Hx|right; rewrite HD3 in Hx; inversion Hx; subst; exact B0].
 Qed.
 
+
+
 (* ========================================================================================== a missed event *)
-Definition lost22 (s : lstate_t) : bool :=
-  (conn_timeout (tm s) <=? tsle (cs s)) || (lstate_eqb (st s) Connecting && (5 * interval (tm s) <=? tsle (cs s))).
+
+Lemma epilogue_st c s9 it : st (fst (end_event_epilogue c s9 it)) = st s9.
+Proof.
+  unfold end_event_epilogue.
+  assert (X : st (transmit_pending_control_pdus c s9) = st s9)
+    by (destruct (ck_keep _ _ _ (ctlk_tpcp c s9)) as (K & _); exact K).
+  destruct (st s9) eqn:S; cbn [flush_events fst st set_ring]; first [exact X|exact S].
+Qed.
+
+(* ========================================================================================== the event at the instant *)
+Lemma instant_event c s e pdus s' r b :
+  st s = Connected -> base22 s -> Glob s -> tw_size (tm s) = 0 ->
+  existsb (fun p => 27 <? N.of_nat (length (snd p))) pdus = false ->
+  deferred s = Some b -> byte b 0 = 0 -> c_cb c = true ->
+  lstep c s (Ev e pdus) = (s', r) -> r <> OCrash -> rxq (bf s') = [] -> st s' = ConnChanged ->
+  exists t k ch ws we pre d,
+    parse_update b = (t, Some true)
+    /\ r = OItems (pre ++ ICe ch ws we (interval t) :: map ICb [EvChanged d])
+    /\ forallb q22 pre = true
+    /\ d_interval d = rd16 b 4 /\ d_latency d = rd16 b 6 /\ d_timeout d = rd16 b 8
+    /\ 1 <= k /\ k <= latency (tm s) + 1
+    /\ covers (sca s) ws we (k * interval (tm s) + tw_off t) (k * interval (tm s) + (tw_off t + tw_size t)) = true
+    /\ tm s' = t /\ sca s' = sca s /\ base22 s' /\ Glob s' /\ deferred s' = None
+    /\ normalise21 pdus = [] /\ 1250 <= tw_size t.
+Proof.
+  intros Hst0 (B1 & B3 & B4 & B5 & B6 & B7 & BT) (G1 & G2 & G3 & G4 & G5) HZ HL DS B0 CBt H Hr HX HS'.
+  assert (Hst : st s = Connecting \/ st s = Connected) by (right; exact Hst0).
+  pose proof BT as (I1 & I2 & I3 & I4 & I5 & I6 & I7 & I8 & I9).
+  cbn [lstep] in H. rewrite (LLProofsC27Sim.in_conn_of s Hst) in H. rewrite HL in H.
+  destruct (radio_event_spec (S (length pdus + length (txq (bf s)))) s pdus) as (b' & R1 & R2 & R3 & R4 & R5 & R6 & R7).
+  { apply le_S. apply Nat.add_le_mono_l. apply unsent_le. } { apply le_n_S. apply Nat.le_0_l. }
+  destruct (radio_event _ s pdus) as [s1 it1]. cbn [fst snd] in R1, R7. subst s1 it1.
+  set (s1 := set_bf s b') in *. rewrite B1 in R4. cbn [app] in R4.
+  assert (Hst1 : st s1 = Connecting \/ st s1 = Connected) by exact Hst.
+  destruct (do_end_event c s1 e) as [[s2 it2]|] eqn:E2; [|inversion H; subst; congruence].
+  inversion H; subst s2 r; clear H.
+  destruct (LLProofsC27Sim.prologue_form c s1 Hst1) as (rr & Esp & ERR).
+  assert (RR0 : rr = []) by (rewrite (ERR Hst0); exact G4). subst rr.
+  unfold do_end_event in E2. rewrite Esp in E2.
+  set (sp := set_ring (upd_tm (set_st (set_pending_event s1 false) Connected) (fun t => set_tw_size t 0)) []) in *.
+  destruct (end_event_body c sp e) as [[s9 it9]|] eqn:EB; cbn [obind] in E2; [|discriminate].
+  assert (S9 : st s9 = ConnChanged).
+  { pose proof (epilogue_st c s9 it9) as X. destruct (end_event_epilogue c s9 it9) as [x y]. cbn [fst] in X. inversion E2; subst x y. rewrite <- X. exact HS'. }
+  unfold end_event_body in EB. change (st sp) with Connected in EB. cbn [lstate_eqb andb] in EB.
+  assert (DP : deferred sp = Some b) by exact DS.
+  cbn [handle_received_data] in EB. rewrite DP in EB.
+  rewrite (send_control_noop sp) in EB by reflexivity.
+  destruct (end_event_continue c sp e) as [[s8 it8]|] eqn:EC; cbn [obind] in EB; [|discriminate].
+  cbn [app] in EB. inversion EB; subst s9 it9; clear EB.
+  destruct (tail22_apply c sp e s8 it8 b) as (t & k & kk & ch & ws & we & PU & Eit & K1 & K2 & KT & Ecov & E8); try assumption; try reflexivity.
+  { unfold timing_inv. change (tm sp) with (set_tw_size (tm s) 0). change (sca sp) with (sca s).
+    cbn [latency interval tw_size tw_off conn_timeout set_tw_size]. repeat split; try assumption; clear; lia. }
+  cbn zeta in E8.
+  destruct (parse_update_ok b t PU) as (CT & OI & T1 & T2 & T3 & T4 & T5 & T6).
+  pose proof (check_timing_true t CT) as (C1 & (C2 & C2') & (C3 & C3') & C4 & (C5 & C5') & C6).
+  subst s8 it8. unfold end_event_epilogue in E2. cbn [st set_pending_event set_ring set_st] in E2. cbn [flush_events] in E2.
+  inversion E2; subst s' it2; clear E2.
+  match goal with |- context [details_of ?X] => set (sa := X) in * end.
+  exists t, k, ch, ws, we, (tx_items (unsent s)), (details_of sa).
+  split; [exact PU|]. split; [reflexivity|]. split; [apply tx_q22|].
+  split; [unfold details_of; change (interval (tm sa)) with (interval t); rewrite T3; change GenLL.us_per_digits with 1250; cbn [d_interval]; apply N.div_mul; discriminate|].
+  split; [unfold details_of; cbn [d_latency]; change (latency (tm sa)) with (latency t); exact T4|].
+  split; [unfold details_of; cbn [d_timeout]; change (timeout_value (tm sa)) with (timeout_value t); exact T5|].
+  split; [exact K1|]. split; [exact K2|].
+  split; [change (interval (tm sp)) with (interval (tm s)) in KT; rewrite KT in Ecov; exact Ecov|].
+  split; [reflexivity|]. split; [reflexivity|].
+  split; [|split; [|split; [reflexivity|split; [rewrite <- R4; exact HX|exact C3]]]].
+  - unfold base22. split; [exact HX|]. split; [change (stopped b' = false); rewrite R2; exact B3|]. split; [reflexivity|].
+    split; [exact B5|]. split; [exact B6|]. split; [exact B7|].
+    unfold timing_inv. change (tm _) with t. change (sca _) with (sca s).
+    repeat split; try assumption; try (clear - OI C2'; lia). 
+  - unfold Glob. split; [exact G1|]. split; [exact G2|]. split; [exact G3|]. split; [reflexivity|]. left. reflexivity.
+Qed.
 
 Lemma fd_glob c s : Glob s -> ring s = [] ->
   Glob (set_ring (fst (force_disconnect c s)) []) /\ in_connection (set_ring (fst (force_disconnect c s)) []) = false
@@ -376,15 +660,15 @@ Proof.
   intros (G1 & G2 & G3 & G4 & G5) _. unfold force_disconnect, reset_encryption, reset_phy, push_event.
   destruct (c_enc c); destruct (c_phy c); destruct (st s) eqn:S; destruct (c_cb c);
     cbn [fst snd upd_sc set_sc st]; rewrite ?S; try destruct (_ <? _);
-    (split; [unfold Glob; cbn; repeat split; assumption|split; reflexivity]).
+    (split; [unfold Glob; cbn; repeat split; try assumption; right; reflexivity|split; reflexivity]).
 Qed.
 
 Lemma missed_event c s s' r :
-  st s = Connecting \/ st s = Connected -> base22 s -> Glob s -> lstep c s Timeout = (s', r) -> r <> OCrash ->
+  live22 s -> base22 s -> Glob s -> lstep c s Timeout = (s', r) -> r <> OCrash ->
   if lost22 s
   then exists it, r = OItems it /\ has_adv22 it = true /\ in_connection s' = false /\ Glob s'
-  else exists ch ws we,
-         r = OItems [ICe ch ws we (interval (tm s))]
+  else (deferred s <> None /\ deferred s' = None) \/ exists ch ws we,
+         r = OItems [ICe ch ws we (interval (tm s))] /\ deferred s' = deferred s
          /\ st s' = st s /\ tm s' = tm s /\ sca s' = sca s /\ tsle (cs s') = tsle (cs s) + interval (tm s)
          /\ covers (sca s) ws we (tsle (cs s') + (if tw_size (tm s) =? 0 then 0 else tw_off (tm s)))
                                   (tsle (cs s') + (if tw_size (tm s) =? 0 then 0 else tw_off (tm s) + tw_size (tm s))) = true
@@ -394,11 +678,11 @@ Proof.
   intros Hst (B1 & B3 & B4 & B5 & B6 & B7 & BT) HG H Hr.
   pose proof HG as (G1 & G2 & G3 & G4 & G5).
   destruct BT as (I1 & I2 & I3 & I4 & I5 & I6 & I7 & I8 & I9).
-  cbn [lstep] in H. rewrite (LLProofsC27Sim.in_conn_of s Hst) in H.
+  cbn [lstep] in H. rewrite (in_conn_of3 s Hst) in H.
   destruct (do_timeout c s) as [[s2 it2]|] eqn:E; cbn [ok_items] in H; inversion H; subst; [|congruence]. clear H.
   unfold do_timeout in E.
   change (st (set_pending_event s false)) with (st s) in E.
-  assert (ND : lstate_eqb (st s) Disconnecting = false) by (destruct Hst as [-> | ->]; reflexivity).
+  assert (ND : lstate_eqb (st s) Disconnecting = false) by (destruct Hst as [-> | [-> | ->]]; reflexivity).
   rewrite ND in E. cbn [andb] in E.
   change (proc_timeout (set_pending_event s false)) with (proc_timeout s) in E. rewrite B4 in E. cbn [N.eqb negb andb] in E.
   change (interval (tm (set_pending_event s false))) with (interval (tm s)) in E.
@@ -423,21 +707,23 @@ Proof.
     change (interval (tm (set_pending_event s false))) with (interval (tm s)) in E.
     rewrite dt_add_some in E by lia. cbn [obind] in E.
     set (s1 := upd_cs (set_pending_event s false) (fun c0 => mk_cstate ((ch_idx c0 + 1) mod 37) (u16 (evc c0 + 1)) (tsle (cs s) + interval (tm s)) (last_lat c0))) in E.
-    unfold pending_then_setup, handle_pending_ll_control in E.
-    change (deferred s1) with (deferred s) in E. rewrite G5 in E. cbn [obind] in E.
-    destruct (setup_next_connection_event s1) as [[s8 it8]|] eqn:E8; cbn [obind] in E; [|discriminate].
+    destruct (pending_then_setup c s1) as [[s8 it8]|] eqn:EPS; cbn [obind] in E; [|discriminate].
+    destruct (pts22 c s1 s8 it8 EPS) as [[Dn D8]|E8].
+    { left. cbn [flush_events] in E. inversion E; subst s' it2. split; [exact Dn|exact D8]. }
+    right.
     destruct (window_covers s1 s8 it8) as (ch & ws & we & Eit & Ecov); [| |exact E8|].
     { subst s1. cbn [tsle cs upd_cs set_cs set_pending_event tm tw_off tw_size]. unfold time_bound. lia. }
     { exact I9. }
     pose proof (setup_next_sym s1 s8 it8 E8) as MID.
     apply setup_next_frame in E8. destruct E8 as [E8 _].
-    cbn [app flush_events] in E. inversion E; subst s' it2; clear E.
+    cbn [flush_events] in E. inversion E; subst s' it2; clear E.
     assert (R8 : ring s8 = []) by (subst s8 s1; exact G4). rewrite R8, Eit. cbn [map app].
     exists ch, ws, we.
-    split; [reflexivity|]. split; [subst s8 s1; reflexivity|]. split; [subst s8 s1; reflexivity|]. split; [subst s8 s1; reflexivity|].
+    split; [reflexivity|]. split; [subst s8 s1; reflexivity|]. split; [subst s8 s1; reflexivity|]. split; [subst s8 s1; reflexivity|]. split; [subst s8 s1; reflexivity|].
     split; [subst s8 s1; reflexivity|]. split; [subst s8; exact Ecov|].
     split; [intros Z; destruct (MID Z) as (c1 & w1 & w2 & Eq & Em); rewrite Eit in Eq; inversion Eq; subst; exact Em|].
-    split; [subst s8 s1; unfold base22, timing_inv; cbn; repeat split; assumption|subst s8 s1; unfold Glob; cbn; repeat split; assumption].
+    split; [subst s8 s1; unfold base22, timing_inv; cbn; repeat split; assumption|].
+    subst s8 s1; unfold Glob; cbn [chan sc ac ring deferred set_ring set_pending_event upd_cs set_cs]. repeat split; try assumption.
 Qed.
 
 (* ========================================================================================== a connect request *)
@@ -465,11 +751,12 @@ Proof. intros H. unfold slice. rewrite firstn_length, skipn_length. lia. Qed.
 Lemma adv22 c s hdr0 body s' r p :
   cfg_ok22 c = true -> Glob s -> in_connection s = false -> p_phase p = PIdle ->
   lstep c s (Adv hdr0 body) = (s', r) -> r <> OCrash ->
-  exists p', mstep22 c p (Adv hdr0 body) r = (Ok, p') /\ Sim22 s' p'.
+  exists p', mstep22 c p (Adv hdr0 body) r = (Ok, p') /\ Sim22 c s' p'.
 Proof.
   intros Hc HG NI PI H Hr. pose proof HG as (G1 & G2 & G3 & G4 & G5).
+  assert (DN : deferred s = None) by (destruct G5 as [X|X]; [congruence|exact X]).
   unfold cfg_ok22 in Hc.
-  assert (Same : forall x, T22 x p = (in_connection x = false)) by (intros x; unfold T22; rewrite PI; reflexivity).
+  assert (Same : forall x, T22 (c_cb c) x p = (in_connection x = false)) by (intros x; unfold T22; rewrite PI; reflexivity).
   cbn [lstep] in H. destruct (st s) eqn:S; try (inversion H; subst; exists p; split; [reflexivity|split; [exact HG|rewrite Same; exact NI]]).
   destruct (255 <? _); [inversion H; subst; exists p; split; [reflexivity|split; [exact HG|rewrite Same; exact NI]]|].
   destruct (do_adv_received c s hdr0 body) as [[s2 it2]|] eqn:E; cbn [ok_items] in H; inversion H; subst; [|congruence]. clear H.
@@ -478,7 +765,7 @@ Proof.
   destruct (addressed_to_us c hdr0 body) eqn:EA.
   2:{ (* not for us: advertising goes on *)
       inversion E; subst. cbn [find_ce fold_left]. rewrite PI. cbn [andb].
-      exists p. split; [reflexivity|]. split; [unfold Glob in *; cbn; auto|rewrite Same; unfold in_connection; cbn [st set_adv_ch]; rewrite S; reflexivity]. }
+      exists p. split; [reflexivity|]. split; [unfold Glob in *; cbn; auto 10|rewrite Same; unfold in_connection; cbn [st set_adv_ch]; rewrite S; reflexivity]. }
   pose proof (addressed_len c hdr0 body EA) as Hlen.
   pose proof (ChanMapProofs.reset_result (chan s) (slice body 28 5) (N.land (byte body 33) 31) (slice_len body 28 5 ltac:(lia)) G1) as RR.
   destruct (ChanMapModel.reset_impl (chan s) (slice body 28 5) (N.land (byte body 33) 31)) as [ch rch].
@@ -490,7 +777,7 @@ Proof.
   subst rch. destruct (ChanMapSpec.valid_hop _ && ChanMapSpec.valid_map _) eqn:VM.
   2:{ (* map / hop refused *)
       inversion E; subst. cbn [find_ce fold_left]. rewrite PI. replace (connect_valid body) with (connect_timing_valid body && (connect_hop_valid body && (2 <=? used_channels (slice body 28 5)))) by (unfold connect_valid; rewrite andb_assoc; reflexivity). rewrite CV. rewrite (andb_false_r (connect_timing_valid body)). cbn [andb].
-      exists p. split; [reflexivity|]. split; [unfold Glob in *; cbn; auto|rewrite Same; unfold in_connection; cbn [st set_chan]; rewrite S; reflexivity]. }
+      exists p. split; [reflexivity|]. split; [unfold Glob in *; cbn; auto 10|rewrite Same; unfold in_connection; cbn [st set_chan]; rewrite S; reflexivity]. }
   destruct (parse_connect body) as [t ok] eqn:EP.
   destruct ok as [[|]|].
   3:{ exfalso. unfold parse_connect in EP. inversion EP as [[Et Eo]]. destruct (_ <=? _) in Eo; [|discriminate]. exact (check_timing_total _ Eo). }
@@ -499,7 +786,7 @@ Proof.
       assert (NV : connect_timing_valid body = false).
       { destruct (connect_timing_valid body) eqn:V; [|reflexivity]. pose proof (check_timing_of_valid body V) as X. rewrite EP in X. discriminate X. }
       unfold connect_valid. rewrite NV. cbn [andb].
-      exists p. split; [reflexivity|]. split; [unfold Glob in *; cbn; auto|rewrite Same; unfold in_connection; cbn [st set_tm set_chan]; rewrite S; reflexivity]. }
+      exists p. split; [reflexivity|]. split; [unfold Glob in *; cbn; auto 10|rewrite Same; unfold in_connection; cbn [st set_tm set_chan]; rewrite S; reflexivity]. }
   (* accepted *)
   assert (PT : tw_off t = (rd16 body 20 + 1) * 1250 /\ tw_size t = byte body 19 * 1250 /\ interval t = rd16 body 22 * 1250
                /\ latency t = rd16 body 24 /\ conn_timeout t = rd16 body 26 * 10000 /\ check_timing t = Some true
@@ -538,9 +825,9 @@ Proof.
   rewrite Ecov. cbn [negb].
   eexists. split; [reflexivity|].
   split.
-  - unfold Glob. subst s11 s10. cbn. repeat split; assumption.
+  - unfold Glob. subst s11 s10. cbn. repeat split; try assumption. right. exact DN.
   - unfold T22. cbn [p_phase]. subst s11.
-    split; [cbn; reflexivity|]. split; [|split].
+    split; [cbn; reflexivity|]. split; [|split; [|split; [subst s10; cbn; exact DN|]]].
     + unfold base22, timing_inv. subst s10. LLProofsC27Sim.psimp. repeat split; try reflexivity; try assumption; try (clear - T1 T7 C2'; lia); try (clear - SL Hc; lia).
     + subst s10. LLProofsC27Sim.psimp. rewrite T2. rewrite T2 in C3. clear - C3. lia.
     + exists 0. split; [subst s10; reflexivity|]. subst s10. LLProofsC27Sim.psimp. rewrite T3, T4, T5. reflexivity.
@@ -588,6 +875,25 @@ Proof.
   rewrite <- andb_assoc, E, andb_false_r. reflexivity.
 Qed.
 
+Lemma pdus_ok22_cases c pdus :
+  match pdus with
+  | [] => true
+  | _ => negb (c_enc c) && (forallb (pdu_ok22 c) pdus || (c_cb c && match pdus with [u] => upd_ok22 u | _ => false end))
+  end = true ->
+  (updates_of pdus = [] /\ (normalise21 pdus = [] \/ (c_enc c = false /\ forallb (nq c) (normalise21 pdus) = true)))
+  \/ (c_enc c = false /\ c_cb c = true /\ exists b, pdus = [(3, b)] /\ length b = 12%nat /\ byte b 0 = 0).
+Proof.
+  intros H. destruct pdus as [|p0 t0] eqn:EP; [left; split; [reflexivity|left; reflexivity]|]. rewrite <- EP in *.
+  apply andb_prop in H. destruct H as [E H]. apply orb_prop in H. destruct H as [H|H].
+  - left. assert (X : match pdus with [] => true | _ => negb (c_enc c) && forallb (pdu_ok22 c) pdus end = true)
+      by (rewrite EP; rewrite <- EP; rewrite E, H; reflexivity).
+    split; [exact (pdus_ok22_updates c pdus X)|exact (pdus_ok22_norm c pdus X)].
+  - right. apply andb_prop in H. destruct H as [CB H]. split; [apply negb_true_iff; exact E|]. split; [exact CB|].
+    rewrite EP in *. destruct t0; [|discriminate H]. destruct p0 as [llid b]. unfold upd_ok22 in H. cbn [fst snd] in H.
+    apply andb_prop in H. destruct H as [H B0]. apply andb_prop in H. destruct H as [L3 L]. apply N.eqb_eq in L3, L, B0. subst llid.
+    exists b. split; [reflexivity|]. split; [clear - L; lia|exact B0].
+Qed.
+
 Lemma fold_changed_q22 pre : forallb q22 pre = true ->
   fold_left (fun a i => match i with ICb (EvChanged d) => Some d | _ => a end) pre None = None.
 Proof.
@@ -609,31 +915,67 @@ Proof.
     fold (changed_details ([ICe ch ws we iv] ++ map ICb rr)). rewrite (changed_details_cbs _ rr R). reflexivity.
 Qed.
 
-Theorem sim22_step c s p o s' r :
-  cfg_ok22 c = true -> Sim22 s p -> op_ok22 c o = true -> lstep c s o = (s', r) -> r <> OCrash -> calm22 s' = true ->
-  exists p', mstep22 c p o r = (Ok, p') /\ Sim22 s' p'.
+Lemma still22_ev s e pdus s' : still22 s (Ev e pdus) s' = true ->
+  (exists b, deferred s = Some b /\ st s' = ConnChanged) \/ (deferred s <> None \/ updates_of pdus <> [] -> deferred s' <> None).
 Proof.
-  intros Hc [HG HT] Ho H Hr HX0.
+  cbn [still22]. intros H.
+  destruct (deferred s') as [d'|] eqn:D'; [right; intros _; discriminate|].
+  destruct (deferred s) as [b|] eqn:D.
+  - left. exists b. split; [reflexivity|]. cbn [is_some22 orb andb] in H. destruct (st s'); try discriminate H. reflexivity.
+  - right. intros [Y|Y]; [congruence|]. exfalso. cbn [is_some22 orb andb] in H. destruct (updates_of pdus); [apply Y; reflexivity|discriminate H].
+Qed.
+
+Lemma views22c pre ch ws we iv d : forallb q22 pre = true ->
+  has_adv22 (pre ++ ICe ch ws we iv :: map ICb [EvChanged d]) = false
+  /\ find_ce (pre ++ ICe ch ws we iv :: map ICb [EvChanged d]) = Some (ch, ws, we, iv)
+  /\ changed_details (pre ++ ICe ch ws we iv :: map ICb [EvChanged d]) = Some d.
+Proof.
+  intros Q. split; [|split].
+  - unfold has_adv22. rewrite existsb_app. cbn [existsb map orb]. rewrite orb_false_r.
+    induction pre as [|i t IH]; [reflexivity|]. cbn [forallb] in Q. apply andb_prop in Q. destruct Q as [Q1 Q2]. cbn [existsb]. rewrite (IH Q2), orb_false_r.
+    destruct i; try reflexivity; discriminate Q1.
+  - apply find_ce_pick. apply noce22_cbs.
+  - unfold changed_details. rewrite fold_left_app, (fold_changed_q22 pre Q). reflexivity.
+Qed.
+
+Lemma search_k_witness a s e off size iv : forall n j,
+  (1 <= j)%nat -> (j <= n)%nat -> covers a s e (N.of_nat j * iv + off) (N.of_nat j * iv + off + size) = true ->
+  search_k a s e off size iv n = true.
+Proof.
+  induction n as [|n IH]; intros j J1 J2 C; [lia|]. cbn [search_k].
+  destruct (Nat.eq_dec j (S n)) as [->|NE]; [rewrite C; reflexivity|].
+  rewrite (IH j J1 ltac:(lia) C). apply orb_true_r.
+Qed.
+
+Theorem sim22_step c s p o s' r :
+  cfg_ok22 c = true -> Sim22 c s p -> op_ok22 c o = true -> lstep c s o = (s', r) -> r <> OCrash -> calm22 s' = true ->
+  still22 s o s' = true ->
+  exists p', mstep22 c p o r = (Ok, p') /\ Sim22 c s' p'.
+Proof.
+  intros Hc [HG HT] Ho H Hr HX0 HS0.
   assert (HX : rxq (bf s') = []) by (unfold calm22 in HX0; destruct (rxq (bf s')); [reflexivity|discriminate]). pose proof HG as (G1 & G2 & G3 & G4 & G5).
   destruct (p_phase p) eqn:PH.
   - (* not connected *)
     assert (NI : in_connection s = false) by (unfold T22 in HT; rewrite PH in HT; exact HT).
-    assert (Same : forall x, T22 x p = (in_connection x = false)) by (intros x; unfold T22; rewrite PH; reflexivity).
+    assert (Same : forall x, T22 (c_cb c) x p = (in_connection x = false)) by (intros x; unfold T22; rewrite PH; reflexivity).
+    assert (DN : deferred s = None) by (destruct G5 as [X|X]; [congruence|exact X]).
     destruct o; try discriminate Ho.
     + (* Run *) cbn [lstep] in H. destruct (st s) eqn:S; try (exfalso; unfold in_connection in NI; rewrite S in NI; discriminate NI); inversion H; subst; exists p; (split; [reflexivity|]);
-        (split; [unfold Glob; cbn; auto|rewrite Same; unfold in_connection; cbn; rewrite ?S; reflexivity]).
+        (split; [unfold Glob; cbn; auto 10|rewrite Same; unfold in_connection; cbn; rewrite ?S; reflexivity]).
     + (* AdvTimeout *) cbn [lstep] in H. destruct (st s) eqn:S; try (exfalso; unfold in_connection in NI; rewrite S in NI; discriminate NI); inversion H; subst; exists p; (split; [reflexivity|]);
-        (split; [unfold Glob; cbn; auto|rewrite Same; unfold in_connection; cbn; rewrite ?S; reflexivity]).
+        (split; [unfold Glob; cbn; auto 10|rewrite Same; unfold in_connection; cbn; rewrite ?S; reflexivity]).
     + (* Adv *) apply (adv22 c s hdr0 body s' r p Hc HG NI PH H Hr).
     + (* Ev *) cbn [lstep] in H. rewrite NI in H. inversion H; subst. exists p. split; [reflexivity|]. split; [exact HG|exact HT].
     + (* Timeout *) cbn [lstep] in H. rewrite NI in H. inversion H; subst. exists p. split; [reflexivity|]. split; [exact HG|exact HT].
-    + (* TxAvail *) inversion H; subst. exists p. split; [reflexivity|]. split; [unfold Glob; cbn; auto|rewrite Same; exact NI].
-    + (* Key *) inversion H; subst. exists p. split; [reflexivity|]. split; [unfold Glob; cbn; auto|rewrite Same; exact NI].
+    + (* TxAvail *) inversion H; subst. exists p. split; [reflexivity|]. split; [unfold Glob; cbn; auto 10|rewrite Same; exact NI].
+    + (* Key *) inversion H; subst. exists p. split; [reflexivity|]. split; [unfold Glob; cbn; auto 10|rewrite Same; exact NI].
     + (* St *) inversion H; subst. exists p. split; [reflexivity|]. split; [exact HG|exact HT].
   - (* connecting *)
-    unfold T22 in HT. rewrite PH in HT. destruct HT as (Hst & HB & HZ & k & Hk & Ep).
-    assert (Hst' : st s = Connecting \/ st s = Connected) by (left; exact Hst).
-    pose proof (LLProofsC27Sim.in_conn_of s Hst') as IC.
+    unfold T22 in HT. rewrite PH in HT. destruct HT as (Hst & HB & HZ & DN & k & Hk & Ep).
+    assert (CB : deferred s <> None -> c_cb c = true) by (intros Y; congruence).
+    assert (PE : pend22 s = []) by (unfold pend22; rewrite DN; reflexivity).
+    assert (Hst' : live22 s) by (left; exact Hst).
+    pose proof (in_conn_of3 s Hst') as IC.
     pose proof HB as (B1 & B3 & B4 & B5 & B6 & B7 & BT). pose proof BT as (I1 & I2 & I3 & I4 & I5 & I6 & I7 & I8 & I9).
     destruct o; try discriminate Ho.
     + cbn [lstep] in H. rewrite Hst in H. inversion H; subst s' r. exists p. split; [reflexivity|]. split; [exact HG|]. unfold T22. rewrite PH. eauto 10.
@@ -641,11 +983,22 @@ Proof.
     + cbn [lstep] in H. rewrite Hst in H. inversion H; subst s' r. exists p. split; [reflexivity|]. split; [exact HG|]. unfold T22. rewrite PH. eauto 10.
     + (* Ev *)
       cbn [op_ok22] in Ho. apply andb_prop in Ho. destruct Ho as [HL HPd]. apply negb_true_iff in HL.
-      pose proof (pdus_ok22_norm c pdus HPd) as HPn. pose proof (pdus_ok22_updates c pdus HPd) as HU.
-      destruct (neutral_event c s evts pdus s' r Hst' HB HG HL HPn H Hr HX) as (kk & ch & ws & we & pre & rr & Er & QP & RR & K1 & K2 & KT & Esum & Ecov & S1 & TM1 & A1 & HB1 & HG1).
+      pose proof (pdus_ok22_cases c pdus HPd) as HPc.
+      assert (HPn : (updates_of pdus = [] /\ (normalise21 pdus = [] \/ (c_enc c = false /\ forallb (nq c) (normalise21 pdus) = true)))
+                    \/ (c_enc c = false /\ exists b, pdus = [(3, b)] /\ length b = 12%nat /\ byte b 0 = 0))
+        by (destruct HPc as [X|(X1 & _ & X2)]; [left; exact X|right; split; [exact X1|exact X2]]).
+      destruct (still22_ev s evts pdus s' HS0) as [(b0 & DS0 & _)|HK]; [congruence|].
+      destruct (neutral_event c s evts pdus s' r Hst' HB HG HL HPn H Hr HX HK) as (kk & ch & ws & we & pre & rr & Er & QP & RR & K1 & K2 & KT & Esum & Ecov & S1 & TM1 & A1 & HB1 & HG1 & EPD & ESH).
+      assert (SH' : forall x, deferred s' = Some x -> byte x 0 = 0) by (intros x Hx; destruct (ESH x Hx) as [Y|Y]; [congruence|exact Y]).
+      assert (CB' : deferred s' <> None -> c_cb c = true).
+      { intros Y. destruct HPc as [[HU _]|(_ & CBt & _)]; [|exact CBt]. apply CB. intros DN'. apply Y.
+        assert (X : pend22 s' = []) by (rewrite EPD, HU; unfold pend22; rewrite DN'; reflexivity).
+        unfold pend22 in X. destruct (deferred s'); [discriminate X|reflexivity]. }
+      assert (CBX : negb (c_cb c) && match pend22 s' with _ :: _ => true | [] => false end = false).
+      { destruct (deferred s') as [d|] eqn:DS'; [rewrite (CB' ltac:(discriminate)); reflexivity|unfold pend22; rewrite DS'; apply andb_false_r]. }
       destruct (views22 pre ch ws we (interval (tm s)) rr QP RR) as (VA & VF & VC).
       subst r p. unfold mstep22. cbn [p_phase p_stop p_upd p_interval p_latency p_timeout p_a p_off p_size p_t p_missed].
-      rewrite VA, VF, HU, VC. cbn [app]. rewrite andb_false_r.
+      rewrite VA, VF, VC. rewrite PE in EPD. rewrite <- EPD. rewrite CBX.
       rewrite N.eqb_refl. cbn [negb].
       rewrite Esum, KT.
       replace ((2 * (kk * interval (tm s))) mod 2 =? 0) with true by (symmetry; apply N.eqb_eq; rewrite (N.mul_comm 2); apply N.mod_mul; discriminate).
@@ -657,7 +1010,7 @@ Proof.
       cbn [negb]. rewrite <- KT. rewrite Ecov. cbn [negb].
       eexists. split; [reflexivity|]. split; [exact HG1|].
       unfold T22. cbn [p_phase]. split; [exact S1|]. split; [exact HB1|]. split; [rewrite TM1; reflexivity|].
-      exists 0. rewrite TM1, A1. reflexivity.
+      exists 0. split; [rewrite TM1, A1; reflexivity|split; [exact CB'|exact SH']].
     + (* Timeout *)
       pose proof (missed_event c s s' r Hst' HB HG H Hr) as ME.
       assert (EL : lost22 s = (conn_timeout (tm s) <=? tsle (cs s)) || (true && (5 <=? k))).
@@ -667,7 +1020,7 @@ Proof.
       destruct (lost22 s) eqn:L.
       * destruct ME as (it & Er & Ha & NI' & HG'). subst r. rewrite Ha, <- EL. cbn [negb]. rewrite andb_false_r.
         eexists. split; [reflexivity|]. split; [exact HG'|exact NI'].
-      * destruct ME as (ch & ws & we & Er & S1 & TM1 & A1 & KT & Ecov & _ & HB1 & HG1). subst r.
+      * destruct ME as [[Dn _]|(ch & ws & we & Er & ED & S1 & TM1 & A1 & KT & Ecov & _ & HB1 & HG1)]; [congruence|]. subst r.
         cbn [has_adv22 existsb changed_details fold_left find_ce]. rewrite <- EL. cbn [negb].
         rewrite N.eqb_refl. cbn [negb].
         replace (tw_size (tm s) =? 0) with false in Ecov by (symmetry; apply N.eqb_neq; exact HZ).
@@ -675,17 +1028,17 @@ Proof.
         replace (tsle (cs s) + interval (tm s) + (tw_off (tm s) + tw_size (tm s))) with (tsle (cs s) + interval (tm s) + tw_off (tm s) + tw_size (tm s)) in Ecov by (clear; lia).
         cbn [orb]. rewrite Ecov. cbn [negb].
         eexists. split; [reflexivity|]. split; [exact HG1|].
-        unfold T22. cbn [p_phase]. split; [rewrite S1; exact Hst|]. split; [exact HB1|]. split; [rewrite TM1; exact HZ|].
+        unfold T22. cbn [p_phase]. split; [rewrite S1; exact Hst|]. split; [exact HB1|]. split; [rewrite TM1; exact HZ|]. split; [rewrite ED; exact DN|].
         exists (k + 1). rewrite TM1, A1, KT. split; [rewrite Hk; clear; lia|reflexivity].
-    + inversion H; subst s' r. exists p. split; [reflexivity|]. split; [unfold Glob; cbn; auto|]. unfold T22. rewrite PH.
-      split; [exact Hst|]. split; [unfold base22; cbn; auto 10|]. split; [exact HZ|]. exists k. split; [exact Hk|exact Ep].
-    + inversion H; subst s' r. exists p. split; [reflexivity|]. split; [unfold Glob; cbn; auto|]. unfold T22. rewrite PH.
-      split; [exact Hst|]. split; [unfold base22; cbn; auto 10|]. split; [exact HZ|]. exists k. split; [exact Hk|exact Ep].
+    + inversion H; subst s' r. exists p. split; [reflexivity|]. split; [unfold Glob; cbn; auto 10|]. unfold T22. rewrite PH.
+      split; [exact Hst|]. split; [unfold base22; cbn; auto 10|]. split; [exact HZ|]. split; [exact DN|]. exists k. split; [exact Hk|exact Ep].
+    + inversion H; subst s' r. exists p. split; [reflexivity|]. split; [unfold Glob; cbn; auto 10|]. unfold T22. rewrite PH.
+      split; [exact Hst|]. split; [unfold base22; cbn; auto 10|]. split; [exact HZ|]. split; [exact DN|]. exists k. split; [exact Hk|exact Ep].
     + inversion H; subst s' r. exists p. split; [reflexivity|]. split; [exact HG|]. unfold T22. rewrite PH. eauto 10.
   - (* connected *)
-    unfold T22 in HT. rewrite PH in HT. destruct HT as (Hst & HB & HZ & k & Ep).
-    assert (Hst' : st s = Connecting \/ st s = Connected) by (right; exact Hst).
-    pose proof (LLProofsC27Sim.in_conn_of s Hst') as IC.
+    unfold T22 in HT. rewrite PH in HT. destruct HT as (Hst & HB & HZ & k & Ep & CB & SH).
+    assert (Hst' : live22 s) by (right; left; exact Hst).
+    pose proof (in_conn_of3 s Hst') as IC.
     pose proof HB as (B1 & B3 & B4 & B5 & B6 & B7 & BT). pose proof BT as (I1 & I2 & I3 & I4 & I5 & I6 & I7 & I8 & I9).
     destruct o; try discriminate Ho.
     + cbn [lstep] in H. rewrite Hst in H. inversion H; subst s' r. exists p. split; [reflexivity|]. split; [exact HG|]. unfold T22. rewrite PH. eauto 10.
@@ -693,11 +1046,42 @@ Proof.
     + cbn [lstep] in H. rewrite Hst in H. inversion H; subst s' r. exists p. split; [reflexivity|]. split; [exact HG|]. unfold T22. rewrite PH. eauto 10.
     + (* Ev *)
       cbn [op_ok22] in Ho. apply andb_prop in Ho. destruct Ho as [HL HPd]. apply negb_true_iff in HL.
-      pose proof (pdus_ok22_norm c pdus HPd) as HPn. pose proof (pdus_ok22_updates c pdus HPd) as HU.
-      destruct (neutral_event c s evts pdus s' r Hst' HB HG HL HPn H Hr HX) as (kk & ch & ws & we & pre & rr & Er & QP & RR & K1 & K2 & KT & Esum & Ecov & S1 & TM1 & A1 & HB1 & HG1).
+      pose proof (pdus_ok22_cases c pdus HPd) as HPc.
+      assert (HPn : (updates_of pdus = [] /\ (normalise21 pdus = [] \/ (c_enc c = false /\ forallb (nq c) (normalise21 pdus) = true)))
+                    \/ (c_enc c = false /\ exists b, pdus = [(3, b)] /\ length b = 12%nat /\ byte b 0 = 0))
+        by (destruct HPc as [X|(X1 & _ & X2)]; [left; exact X|right; split; [exact X1|exact X2]]).
+      destruct (still22_ev s evts pdus s' HS0) as [(b & DS & SC)|HK].
+      { (* the event at the instant of the waiting update *)
+        assert (B0 : byte b 0 = 0) by exact (SH b DS).
+        assert (CBt : c_cb c = true) by (apply CB; rewrite DS; discriminate).
+        destruct (instant_event c s evts pdus s' r b Hst HB HG HZ HL DS B0 CBt H Hr HX SC)
+          as (t & kk & ch & ws & we & pre & d & PU & Er & QP & D1 & D2 & D3 & K1 & K2 & Ecov & TM1 & A1 & HB1 & HG1 & DN1 & NP & TW1).
+        destruct (parse_update_ok b t PU) as (CT & OI & T1 & T2 & T3 & T4 & T5 & T6).
+        assert (HU : updates_of pdus = []).
+        { destruct HPc as [[HU _]|(_ & _ & b2 & -> & L2 & _)]; [exact HU|]. exfalso. unfold normalise21 in NP. cbn [map filter fst snd] in NP. destruct b2; discriminate. }
+        assert (PEs : pend22 s = [(byte b 1, rd16 b 2, rd16 b 4, rd16 b 6, rd16 b 8)]) by (unfold pend22; rewrite DS; reflexivity).
+        destruct (views22c pre ch ws we (interval t) d QP) as (VA & VF & VC).
+        subst r p. unfold mstep22. cbn [p_phase p_stop p_upd p_interval p_latency p_timeout p_a p_off p_size p_t p_missed].
+        rewrite VA, VF, VC, HU, PEs. cbn [app]. rewrite CBt. cbn [negb andb].
+        cbn [LLSpecC22.applied_update]. rewrite D1, D2, D3, !N.eqb_refl. cbn [andb].
+        rewrite T3, N.eqb_refl. cbn [negb].
+        rewrite (search_k_witness (sca s) ws we (rd16 b 2 * 1250) (byte b 1 * 1250) (interval (tm s)) (N.to_nat (latency (tm s) + 1 + k)) (N.to_nat kk)).
+        2:{ clear - K1. lia. } 2:{ clear - K2. lia. }
+        2:{ rewrite N2Nat.id, <- T1, <- T2, <- N.add_assoc. exact Ecov. }
+        eexists. split; [reflexivity|]. split; [exact HG1|].
+        unfold T22. cbn [p_phase]. split; [exact SC|]. split; [exact HB1|]. split; [rewrite TM1; clear - TW1; lia|]. split; [exact DN1|].
+        rewrite TM1, A1, T1, T2, T3, T4, T6. reflexivity. }
+      destruct (neutral_event c s evts pdus s' r Hst' HB HG HL HPn H Hr HX HK) as (kk & ch & ws & we & pre & rr & Er & QP & RR & K1 & K2 & KT & Esum & Ecov & S1 & TM1 & A1 & HB1 & HG1 & EPD & ESH).
+      assert (SH' : forall x, deferred s' = Some x -> byte x 0 = 0) by (intros x Hx; destruct (ESH x Hx) as [Y|Y]; [exact (SH x Y)|exact Y]).
+      assert (CB' : deferred s' <> None -> c_cb c = true).
+      { intros Y. destruct HPc as [[HU _]|(_ & CBt & _)]; [|exact CBt]. apply CB. intros DN'. apply Y.
+        assert (X : pend22 s' = []) by (rewrite EPD, HU; unfold pend22; rewrite DN'; reflexivity).
+        unfold pend22 in X. destruct (deferred s'); [discriminate X|reflexivity]. }
+      assert (CBX : negb (c_cb c) && match pend22 s' with _ :: _ => true | [] => false end = false).
+      { destruct (deferred s') as [d|] eqn:DS'; [rewrite (CB' ltac:(discriminate)); reflexivity|unfold pend22; rewrite DS'; apply andb_false_r]. }
       destruct (views22 pre ch ws we (interval (tm s)) rr QP RR) as (VA & VF & VC).
       subst r p. unfold mstep22. cbn [p_phase p_stop p_upd p_interval p_latency p_timeout p_a p_off p_size p_t p_missed].
-      rewrite VA, VF, HU, VC. cbn [app]. rewrite andb_false_r.
+      rewrite VA, VF, VC. rewrite <- EPD. rewrite CBX.
       rewrite N.eqb_refl. cbn [negb].
       rewrite Esum, KT.
       replace ((2 * (kk * interval (tm s))) mod 2 =? 0) with true by (symmetry; apply N.eqb_eq; rewrite (N.mul_comm 2); apply N.mod_mul; discriminate).
@@ -709,7 +1093,7 @@ Proof.
       cbn [negb]. rewrite <- KT. rewrite Ecov. cbn [negb].
       eexists. split; [reflexivity|]. split; [exact HG1|].
       unfold T22. cbn [p_phase]. split; [exact S1|]. split; [exact HB1|]. split; [rewrite TM1; reflexivity|].
-      exists 0. rewrite TM1, A1. reflexivity.
+      exists 0. split; [rewrite TM1, A1; reflexivity|split; [exact CB'|exact SH']].
     + (* Timeout *)
       pose proof (missed_event c s s' r Hst' HB HG H Hr) as ME.
       assert (EL : lost22 s = (conn_timeout (tm s) <=? tsle (cs s)) || (false && (5 <=? k))).
@@ -718,7 +1102,9 @@ Proof.
       destruct (lost22 s) eqn:L.
       * destruct ME as (it & Er & Ha & NI' & HG'). subst r. rewrite Ha, <- EL. cbn [negb]. rewrite andb_false_r.
         eexists. split; [reflexivity|]. split; [exact HG'|exact NI'].
-      * destruct ME as (ch & ws & we & Er & S1 & TM1 & A1 & KT & Ecov & Esum & HB1 & HG1). subst r.
+      * destruct ME as [[Dn D8]|(ch & ws & we & Er & ED & S1 & TM1 & A1 & KT & Ecov & Esum & HB1 & HG1)].
+        { exfalso. cbn [still22] in HS0. rewrite D8, L in HS0. destruct (deferred s); [discriminate HS0|apply Dn; reflexivity]. }
+        subst r.
         cbn [has_adv22 existsb changed_details fold_left find_ce]. rewrite <- EL. cbn [negb orb].
         rewrite N.eqb_refl. cbn [negb].
         rewrite HZ in Ecov. cbn [N.eqb] in Ecov. rewrite KT in Ecov. rewrite !N.add_0_r. rewrite !N.add_0_r in Ecov. rewrite Ecov. cbn [negb].
@@ -727,26 +1113,80 @@ Proof.
         rewrite N.eqb_refl. cbn [negb].
         eexists. split; [reflexivity|]. split; [exact HG1|].
         unfold T22. cbn [p_phase]. split; [rewrite S1; exact Hst|]. split; [exact HB1|]. split; [rewrite TM1; exact HZ|].
-        exists (k + 1). rewrite TM1, A1, KT. reflexivity.
-    + inversion H; subst s' r. exists p. split; [reflexivity|]. split; [unfold Glob; cbn; auto|]. unfold T22. rewrite PH.
-      split; [exact Hst|]. split; [unfold base22; cbn; auto 10|]. split; [exact HZ|]. exists k. exact Ep.
-    + inversion H; subst s' r. exists p. split; [reflexivity|]. split; [unfold Glob; cbn; auto|]. unfold T22. rewrite PH.
-      split; [exact Hst|]. split; [unfold base22; cbn; auto 10|]. split; [exact HZ|]. exists k. exact Ep.
+        exists (k + 1). split; [rewrite TM1, A1, KT; unfold pend22; rewrite ED; reflexivity|split; [rewrite ED; exact CB|rewrite ED; exact SH]].
+    + inversion H; subst s' r. exists p. split; [reflexivity|]. split; [unfold Glob; cbn; auto 10|]. unfold T22. rewrite PH.
+      split; [exact Hst|]. split; [unfold base22; cbn; auto 10|]. split; [exact HZ|]. exists k. split; [exact Ep|split; [exact CB|exact SH]].
+    + inversion H; subst s' r. exists p. split; [reflexivity|]. split; [unfold Glob; cbn; auto 10|]. unfold T22. rewrite PH.
+      split; [exact Hst|]. split; [unfold base22; cbn; auto 10|]. split; [exact HZ|]. exists k. split; [exact Ep|split; [exact CB|exact SH]].
     + inversion H; subst s' r. exists p. split; [reflexivity|]. split; [exact HG|]. unfold T22. rewrite PH. eauto 10.
-  - unfold T22 in HT. rewrite PH in HT. contradiction.
+  - (* between the instant of an update and the next packet *)
+    unfold T22 in HT. rewrite PH in HT. destruct HT as (Hst & HB & HZ & DN & Ep).
+    assert (CB : deferred s <> None -> c_cb c = true) by (intros Y; congruence).
+    assert (PE : pend22 s = []) by (unfold pend22; rewrite DN; reflexivity).
+    assert (Hst' : live22 s) by (right; right; exact Hst).
+    pose proof (in_conn_of3 s Hst') as IC.
+    pose proof HB as (B1 & B3 & B4 & B5 & B6 & B7 & BT). pose proof BT as (I1 & I2 & I3 & I4 & I5 & I6 & I7 & I8 & I9).
+    destruct o; try discriminate Ho.
+    + cbn [lstep] in H. rewrite Hst in H. inversion H; subst s' r. exists p. split; [reflexivity|]. split; [exact HG|]. unfold T22. rewrite PH. auto 10.
+    + cbn [lstep] in H. rewrite Hst in H. inversion H; subst s' r. exists p. split; [reflexivity|]. split; [exact HG|]. unfold T22. rewrite PH. auto 10.
+    + cbn [lstep] in H. rewrite Hst in H. inversion H; subst s' r. exists p. split; [reflexivity|]. split; [exact HG|]. unfold T22. rewrite PH. auto 10.
+    + (* Ev *)
+      cbn [op_ok22] in Ho. apply andb_prop in Ho. destruct Ho as [HL HPd]. apply negb_true_iff in HL.
+      pose proof (pdus_ok22_cases c pdus HPd) as HPc.
+      assert (HPn : (updates_of pdus = [] /\ (normalise21 pdus = [] \/ (c_enc c = false /\ forallb (nq c) (normalise21 pdus) = true)))
+                    \/ (c_enc c = false /\ exists b, pdus = [(3, b)] /\ length b = 12%nat /\ byte b 0 = 0))
+        by (destruct HPc as [X|(X1 & _ & X2)]; [left; exact X|right; split; [exact X1|exact X2]]).
+      destruct (still22_ev s evts pdus s' HS0) as [(b0 & DS0 & _)|HK]; [congruence|].
+      destruct (neutral_event c s evts pdus s' r Hst' HB HG HL HPn H Hr HX HK) as (kk & ch & ws & we & pre & rr & Er & QP & RR & K1 & K2 & KT & Esum & Ecov & S1 & TM1 & A1 & HB1 & HG1 & EPD & ESH).
+      assert (SH' : forall x, deferred s' = Some x -> byte x 0 = 0) by (intros x Hx; destruct (ESH x Hx) as [Y|Y]; [congruence|exact Y]).
+      assert (CB' : deferred s' <> None -> c_cb c = true).
+      { intros Y. destruct HPc as [[HU _]|(_ & CBt & _)]; [|exact CBt]. apply CB. intros DN'. apply Y.
+        assert (X : pend22 s' = []) by (rewrite EPD, HU; unfold pend22; rewrite DN'; reflexivity).
+        unfold pend22 in X. destruct (deferred s'); [discriminate X|reflexivity]. }
+      assert (CBX : negb (c_cb c) && match pend22 s' with _ :: _ => true | [] => false end = false).
+      { destruct (deferred s') as [d|] eqn:DS'; [rewrite (CB' ltac:(discriminate)); reflexivity|unfold pend22; rewrite DS'; apply andb_false_r]. }
+      destruct (views22 pre ch ws we (interval (tm s)) rr QP RR) as (VA & VF & VC).
+      subst r p. unfold mstep22. cbn [p_phase p_stop p_upd p_interval p_latency p_timeout p_a p_off p_size p_t p_missed].
+      rewrite VA, VF, VC. rewrite PE in EPD. rewrite <- EPD. rewrite CBX.
+      rewrite N.eqb_refl. cbn [negb].
+      rewrite Esum, KT.
+      replace ((2 * (kk * interval (tm s))) mod 2 =? 0) with true by (symmetry; apply N.eqb_eq; rewrite (N.mul_comm 2); apply N.mod_mul; discriminate).
+      cbn [negb]. replace (2 * (kk * interval (tm s)) / 2) with (kk * interval (tm s)) by (symmetry; rewrite (N.mul_comm 2); apply N.div_mul; discriminate).
+      replace ((kk * interval (tm s)) mod interval (tm s) =? 0) with true by (symmetry; apply N.eqb_eq; apply N.mod_mul; clear - I2; lia).
+      cbn [orb negb].
+      replace ((interval (tm s) <=? kk * interval (tm s)) && (kk * interval (tm s) <=? (latency (tm s) + 1) * interval (tm s))) with true
+        by (symmetry; apply andb_true_intro; split; apply N.leb_le; [clear - K1; nia|apply N.mul_le_mono_r; exact K2]).
+      cbn [negb]. rewrite <- KT. rewrite Ecov. cbn [negb].
+      eexists. split; [reflexivity|]. split; [exact HG1|].
+      unfold T22. cbn [p_phase]. split; [exact S1|]. split; [exact HB1|]. split; [rewrite TM1; reflexivity|].
+      exists 0. split; [rewrite TM1, A1; reflexivity|split; [exact CB'|exact SH']].
+    + (* Timeout *)
+      pose proof (missed_event c s s' r Hst' HB HG H Hr) as ME.
+      subst p. unfold mstep22. cbn [p_phase].
+      destruct (lost22 s) eqn:L.
+      * destruct ME as (it & Er & Ha & NI' & HG'). subst r. rewrite Ha. eexists. split; [reflexivity|]. split; [exact HG'|exact NI'].
+      * destruct ME as [[Dn _]|(ch & ws & we & Er & ED & S1 & TM1 & A1 & KT & Ecov & _ & HB1 & HG1)]; [congruence|]. subst r.
+        cbn [has_adv22 existsb orb]. eexists. split; [reflexivity|]. split; [exact HG1|].
+        unfold T22. cbn [p_phase]. split; [rewrite S1; exact Hst|]. split; [exact HB1|]. split; [rewrite TM1; exact HZ|]. split; [rewrite ED; exact DN|].
+        rewrite TM1, A1. reflexivity.
+    + inversion H; subst s' r. exists p. split; [reflexivity|]. split; [unfold Glob; cbn; auto 10|]. unfold T22. rewrite PH.
+      split; [exact Hst|]. split; [unfold base22; cbn; auto 10|]. split; [exact HZ|]. split; [exact DN|exact Ep].
+    + inversion H; subst s' r. exists p. split; [reflexivity|]. split; [unfold Glob; cbn; auto 10|]. unfold T22. rewrite PH.
+      split; [exact Hst|]. split; [unfold base22; cbn; auto 10|]. split; [exact HZ|]. split; [exact DN|exact Ep].
+    + inversion H; subst s' r. exists p. split; [reflexivity|]. split; [exact HG|]. unfold T22. rewrite PH. auto 10.
 Qed.
 
-Lemma Sim22_init c : Sim22 (linit c) (minit22 c).
-Proof. split; [unfold Glob; cbn; auto|reflexivity]. Qed.
+Lemma Sim22_init c : Sim22 c (linit c) (minit22 c).
+Proof. split; [unfold Glob; cbn; auto 10|reflexivity]. Qed.
 
 Theorem monitor22_accepts_env c : cfg_ok22 c = true ->
-  forall ops s p, Sim22 s p -> env22 c s ops = true -> mrun22 c p (lrun c s ops) = Ok.
+  forall ops s p, Sim22 c s p -> env22 c s ops = true -> mrun22 c p (lrun c s ops) = Ok.
 Proof.
   intros Hc. induction ops as [|o t IH]; intros s p HS He; [reflexivity|].
   cbn [env22] in He. cbn [lrun]. destruct (lstep c s o) as [s1 r] eqn:E. cbn [fst snd] in He.
-  apply andb_prop in He. destruct He as [He Ht]. apply andb_prop in He. destruct He as [He Hx]. apply andb_prop in He. destruct He as [Ho Hn].
+  apply andb_prop in He. destruct He as [He Ht]. apply andb_prop in He. destruct He as [He Hs]. apply andb_prop in He. destruct He as [He Hx]. apply andb_prop in He. destruct He as [Ho Hn].
   assert (Hr : r <> OCrash) by (intros ->; discriminate Hn).
-  destruct (sim22_step c s p o s1 r Hc HS Ho E Hr Hx) as (p1 & M1 & HS1).
+  destruct (sim22_step c s p o s1 r Hc HS Ho E Hr Hx Hs) as (p1 & M1 & HS1).
   cbn [mrun22]. rewrite M1. apply IH; assumption.
 Qed.
 
@@ -819,3 +1259,26 @@ Definition session22_pdus : list lop :=
    Ev 0 [(3, [15; 24; 0; 24; 0; 0; 0; 72; 0; 0; 0; 0; 0; 0; 0; 0; 0; 0; 0; 0; 0; 0; 0; 0])]; Ev 0 []; Timeout; Ev 0 []].
 Lemma session22_pdus_env : c_enc cfg_base = false /\ env22 cfg_base (linit cfg_base) session22_pdus = true.
 Proof. vm_compute. split; reflexivity. Qed.
+
+(* LAYER 1 is inhabited: an LL_CONNECTION_UPDATE_IND (interval 100 ms, instant 30) is delivered in the second event and waits
+   for its instant through events, missed events and answered control PDUs... (PDUs delivered while it waits stay in the
+   receive queue: outside) - the environment holds and the update is still deferred at the end *)
+Definition session22_update_waiting : list lop :=
+  [Run; connect_with 3 11 24 0 72; Ev 0 []; Ev 0 [upd_pdu 2 3 80 0 200 30]; Ev 0 []; Timeout; Ev 2 []; Ev 0 []; Timeout; Timeout; Ev 0 []].
+Lemma session22_update_waiting_env :
+  env22 cfg_base (linit cfg_base) session22_update_waiting = true
+  /\ deferred (lfinal cfg_base (linit cfg_base) session22_update_waiting) = Some (snd (upd_pdu 2 3 80 0 200 30)).
+Proof. vm_compute. split; reflexivity. Qed.
+
+(* LAYER 2 is inhabited: the update (interval 100 ms, latency 0, timeout 2 s, window offset 3 / size 2, instant 6) is delivered
+   in the second event, waits, is applied at its instant - connection_changed, transmit window - and the connection goes on
+   with the new interval, through a missed event; a second, like update (offset 1) follows and is applied as well *)
+Definition session22_update_applied : list lop :=
+  [Run; connect_with 3 11 24 0 72; Ev 0 []; Ev 0 [upd_pdu 2 3 80 0 200 6]; Ev 0 []; Ev 0 []; Timeout; Ev 0 []; Ev 0 []; Ev 0 [];
+   Ev 0 []; Timeout; Ev 0 [(3, [18])]; Ev 0 [upd_pdu 2 1 80 0 200 14]; Ev 0 []; Ev 0 []; Ev 0 []; Ev 0 []; Ev 0 []; Ev 0 []].
+Lemma session22_update_applied_env :
+  env22 cfg_base (linit cfg_base) session22_update_applied = true
+  /\ interval (tm (lfinal cfg_base (linit cfg_base) session22_update_applied)) = 100000
+  /\ deferred (lfinal cfg_base (linit cfg_base) session22_update_applied) = None
+  /\ (exists it d, nth_error (trace_of cfg_base session22_update_applied) 7 = Some (Ev 0 [], OItems it) /\ In (ICb (EvChanged d)) it).
+Proof. vm_compute. split; [reflexivity|]. split; [reflexivity|]. split; [reflexivity|]. do 2 eexists. split; [reflexivity|]. simpl. tauto. Qed.
